@@ -260,7 +260,12 @@ def gen_lines(rng, L, be, n_cheap, n_exp, hist, ophist, for_c06=False):
                 v = rng.choice([v, v, 2 ** 32, 2 ** 63, 2 ** 64 - 1, rng.bits(64)])
             add("fp_set_small", 0, v)
         elif k == 13:
-            add(rng.choice(["fp_set_one", "fp_set_zero"]), 0)
+            if rng.below(2):
+                add(rng.choice(["fp_set_one", "fp_set_zero"]), 0)
+            else:
+                # fp_decode_reduce: ref ignores len (C06 finding fp_decode_reduce:len-ignored), so C07 only uses len <= FP_ENCODED_BYTES there
+                ln = rng.choice([L.nbytes, L.nbytes, L.nbytes - 1, 1, 8, 0] + ([L.nbytes + 1, 2 * L.nbytes, 2 * L.nbytes + 3] if be != "ref" else []))
+                add("fp_decode_reduce", 0, ln, (rng.bits(8 * ln) | (1 << (8 * ln - 1))) if ln else 0)
         elif k == 14:
             add("fp_encode", 0, E())
         elif k == 15:
@@ -367,6 +372,43 @@ def gen_lines(rng, L, be, n_cheap, n_exp, hist, ophist, for_c06=False):
     return out
 
 
+FIAT_TO_FP = {"fiat_mul": "fp_mul", "fiat_square": "fp_sqr", "fiat_add": "fp_add", "fiat_sub": "fp_sub", "fiat_opp": "fp_neg",
+              "fiat_to_montgomery": "fp_tomont", "fiat_from_montgomery": "fp_frommont", "fiat_set_one": "fp_set_one"}
+
+
+def fiat_lines(rng, L, count, hist, ophist):
+    """calls of the fiat-crypto functions themselves (ref build): executed by the real code, by the interpreter on the
+    programs re-extracted from the C text (tie T), and — through FIAT_TO_FP — by the generic Montgomery model"""
+    E = lambda: gen_elem(rng, L, "ref", hist)
+    out = []
+
+    def add(op, al, *args):
+        ophist[op] = ophist.get(op, 0) + 1
+        out.append("%s %d %s" % (op, al, " ".join("%x" % a for a in args)))
+    for _ in range(count):
+        k = rng.below(12)
+        if k < 4:
+            al = rng.below(5)
+            a = E()
+            b = a if al >= 3 else E()
+            add(rng.choice(["fiat_mul", "fiat_mul", "fiat_add", "fiat_sub"]), al, a, b)
+        elif k < 6:
+            add(rng.choice(["fiat_square", "fiat_opp", "fiat_from_montgomery"]), rng.below(2), E())
+        elif k == 6:
+            add("fiat_to_montgomery", rng.below(2), rng.choice([E(), rng.below(L.R), L.R - 1, L.p, L.p + 1]))
+        elif k == 7:
+            add("fiat_nonzero", 0, rng.choice([0, E(), 1 << (64 * rng.below(L.n)), 1 << rng.below(64 * L.n)]))
+        elif k == 8:
+            add("fiat_selectznz", 0, rng.choice([0, 1, 1, 0xff]), E(), E())
+        elif k == 9:
+            add("fiat_to_bytes", 0, E())
+        elif k == 10:
+            add("fiat_from_bytes", 0, rng.choice([rng.below(L.p), L.p - 1, 0, 1 << rng.below(8 * L.nbytes - 8)]))
+        else:
+            add("fiat_set_one", 0)
+    return out
+
+
 def corpus_lines(prop, L, be=None):
     """minimised past failures from corpus/<prop>/*.txt (run first on every check)"""
     d = os.path.join(vlib.ROOT, "corpus", prop)
@@ -423,6 +465,8 @@ def oracle(L, be, line, res):
     op, a = t[0], [int(x, 16) for x in t[2:]]
     p, D = L.p, L.dom(be)
     V = L.val
+    if op in FIAT_TO_FP:
+        return oracle(L, be, " ".join([FIAT_TO_FP[op]] + t[1:]), res)
     if "bad-op" in res or any(x.startswith("<") for x in res):
         return ("%s:lvl%d:%s:no-result" % (be, L.lvl, op), "no result from the real code (crash / rejected call)")
     try:
@@ -497,6 +541,14 @@ def oracle(L, be, line, res):
         if len(r) != 2 or not rng_ok(r[0]) or V(r[0]) != a[0] or r[1] != T32:
             return bad("decode of a canonical string is not the encoded value")
         return None
+    if op == "fiat_nonzero":
+        return None if (len(r) == 1 and (r[0] == 0) == (a[0] == 0)) else bad("nonzero test wrong")
+    if op == "fiat_selectznz":
+        return None if r == [a[2] if a[0] else a[1]] else bad("wrong operand selected")
+    if op == "fiat_to_bytes":
+        return None if r == [a[0]] else bad("byte serialisation is not the little-endian integer")
+    if op == "fiat_from_bytes":
+        return None if r == [a[0]] else bad("byte deserialisation is not the little-endian integer")
     # ---- GF(p^2)
     X = lambda i: (V(a[i]), V(a[i + 1]))
     if op == "fp2_add": return fp2res((X(0)[0] + X(2)[0], X(0)[1] + X(2)[1]))
@@ -604,6 +656,8 @@ def oracle(L, be, line, res):
         if y % 2 or r[1] != (T32 if sq else 0) or y * y % p != (va if sq else (-va) % p):
             return bad("wrong root / flag / sign normalisation")
         return None
+    if op == "fp_decode_reduce":
+        return fpres(a[1] % 2 ** (8 * a[0]) if a[0] else 0)
     if op == "gf_decode_reduce":
         return fpres(a[1] % 2 ** (8 * a[0]) if a[0] else 0)
     return ("%s:lvl%d:%s:no-oracle" % (be, L.lvl, op), "operation without oracle")
@@ -654,12 +708,12 @@ def gcd_hard_values(L, mmax=2000, jmax=40, extra_rng=None):
     return out
 
 
-def gcd_sweep(ctx, exe, L, be, thorough=False, ref_exe=None):
+def gcd_sweep(ctx, exe, L, be, thorough=False, ref_exe=None, mmax=2000):
     """oracle-only sweep (no Lean model: ~10^5 calls per level) of fp_is_square / fp_inv / fp_sqrt / fp2_sqrt /
     fp2_inv on binary-GCD-hard operands of back-end `be`; each real result is checked against the exact
     specification. With `ref_exe` (C06) the ref build is run on the fp_is_square / fp_sqrt lines too and must agree."""
     p, V = L.p, L.val
-    vals = gcd_hard_values(L, 2000, 64 if thorough else 40, ctx.rng.fork("gcd:%d" % L.lvl))
+    vals = gcd_hard_values(L, mmax, 64 if thorough else 40, ctx.rng.fork("gcd:%d" % L.lvl))
     lines, chk = [], []
     for idx, (name, v, ls) in enumerate(vals):
         raw = L.mont(v)
